@@ -724,7 +724,9 @@ impl Store {
             // If we have any excluded crates in the imports.lock, it is out of
             // date and needs to be regenerated.
             for crate_name in &config.exclude {
-                if audits_file.audits.contains_key(crate_name) {
+                if audits_file.audits.contains_key(crate_name)
+                    || audits_file.wildcard_audits.contains_key(crate_name)
+                {
                     return true;
                 }
             }
@@ -1051,6 +1053,7 @@ async fn fetch_single_imported_audit(
     // pretend they don't exist upstream.
     for excluded in exclude {
         audit_file.audits.remove(excluded);
+        audit_file.wildcard_audits.remove(excluded);
     }
 
     // Construct a mapping from the foreign criteria namespace into the
